@@ -488,6 +488,8 @@ def make_reference(modules: dict) -> dict:
         for q, fn, nested in functions_with_qualnames(tree):
             entry[q] = [list(x) for x in signatures(fn, nested)]  # also functions without locals: a later temporary is then known to be new
             out.setdefault("__dumps__", {}).setdefault(modname, {})[q] = fn_digest(fn)
+            if not nested:
+                out.setdefault("__stmts__", {}).setdefault(modname, {})[q] = statement_hashes(fn)
             c = comparisons_of(fn)
             if c:
                 out.setdefault("__cmps__", {}).setdefault(modname, {})[q] = c
@@ -512,12 +514,23 @@ def _all_local_names(fn) -> set:
     return out
 
 
+def last_def_key(table: dict, qual: str) -> str:
+    """a name defined several times in one scope (overloads, property getter/setter) is listed as q, q#1, q#2 ...: the model's
+    def of that name is the last one"""
+    k, best = 1, qual
+    while f"{qual}#{k}" in table:
+        best = f"{qual}#{k}"
+        k += 1
+    return best
+
+
 def unknown_locals(fn, modname: str, qual: str) -> Optional[set]:
     """locals of fn (and of its nested functions) that have no counterpart in the reference: temporaries, helpers and
     parameters a later edit introduced.  None when the function itself is not in the reference."""
     ref = reference().get(modname)
     if ref is None or qual not in ref:
         return None
+    qual = last_def_key(ref, qual)
     known = set()
     for q, lst in ref.items():
         if q == qual or q.startswith(qual + ".<locals>.") or q.startswith(qual + "#"):
@@ -534,6 +547,7 @@ def unknown_locals(fn, modname: str, qual: str) -> Optional[set]:
 def known_locals(modname: str, qual: str) -> set:
     """names the reference has for the function `qual` and the functions nested in it (locals, nested defs, their parameters)"""
     ref = reference().get(modname) or {}
+    qual = last_def_key(ref, qual)
     known = set()
     for q, lst in ref.items():
         if q == qual or q.startswith(qual + ".<locals>.") or q.startswith(qual + "#"):
@@ -590,3 +604,38 @@ def orient_comparisons(tree: ast.Module, modname: str) -> None:
                 if hashlib.sha1("|".join(sw).encode()).hexdigest()[:12] in known:
                     n.left, n.comparators = n.comparators[0], [n.left]
                     n.ops = [getattr(ast, _FLIPOP[k[1]])()]
+
+
+# ------------------------------------------------------------------ how far is a function from the reference's?
+
+def statement_hashes(fn) -> list:
+    """one hash per statement of fn (nested functions included), compound statements by their header"""
+    import copy
+    out = []
+    loc = _all_local_names(fn) | set(params_of(fn))
+    for st in ast.walk(fn):
+        if isinstance(st, ast.stmt) and st is not fn and not isinstance(st, (ast.Pass,)):
+            # local names blanked: a renamed (or not aligned) local does not make every statement that uses it "different"
+            head = copy.deepcopy(_head_only(st))
+            head = _Blank(loc | _inner_bound(head), None).visit(head)
+            try:
+                txt = ast.unparse(head)
+            except Exception:  # noqa: BLE001
+                txt = ast.dump(head)
+            out.append(hashlib.sha1(" ".join(txt.split()).encode()).hexdigest()[:10])
+    return out
+
+
+def edit_size(fn, modname: str, qual: str):
+    """(statements the reference's function does not have, statements of the reference's function that are gone), or None
+    when the function is not in the reference.  Computed on the canonical form (reference names, canonical spelling)."""
+    from collections import Counter
+    tab = (reference().get("__stmts__") or {}).get(modname) or {}
+    ref = tab.get(last_def_key(tab, qual))
+    if ref is None:
+        return None
+    cur = Counter(statement_hashes(fn))
+    old = Counter(ref)
+    added = sum((cur - old).values())
+    removed = sum((old - cur).values())
+    return added, removed
